@@ -598,3 +598,97 @@ pub fn design_hits(design: &Design) -> Vec<&'static str> {
     }
     out.into_iter().collect()
 }
+
+
+/// Rewrite the trigger shapes that can be removed locally (so that fewer
+/// designs have to be drawn again): returns the keys that were repaired.
+///
+/// * `ff-read-after-write-in-block`: top-level statements of an always_ff
+///   body that read what an earlier statement of the block assigned are dropped;
+/// * `reset-branch-not-plain-constants`: when every flip-flop of the block is
+///   a plain vector, the reset branch becomes `v = <literal>;` per variable;
+/// * `const-wider-than-declared-type`: the initialiser of a `const` becomes
+///   the literal of its declared type and value.
+pub fn repair(design: &mut Design) -> Vec<&'static str> {
+    let mut done: BTreeSet<&'static str> = BTreeSet::new();
+    let snapshot = design.clone();
+    for (mi, m) in design.modules.iter_mut().enumerate() {
+        let ms = &snapshot.modules[mi];
+        for it in m.items.iter_mut() {
+            if let Item::AlwaysFf { reset, body, .. } = it {
+                // K3
+                let mut written: BTreeSet<DeclId> = BTreeSet::new();
+                let mut keep = vec![];
+                for st in body.iter() {
+                    let mut w2 = written.clone();
+                    if ff_raw(ms, std::slice::from_ref(st), &mut w2) {
+                        done.insert("ff-read-after-write-in-block");
+                        continue;
+                    }
+                    written = w2;
+                    keep.push(st.clone());
+                }
+                *body = keep;
+                // K5
+                let plain = reset.iter().all(|s| {
+                    matches!(s, Stmt::Assign { lhs, op: AssignOp::Set, rhs: Expr::Lit(Lit::Sized { .. } | Lit::Dec(_)) }
+                        if lhs.idx.is_none() && lhs.field.is_none() && matches!(lhs.sel, Sel::None) && ms.decls[lhs.decl].array.is_none())
+                });
+                if !plain {
+                    let mut targets: Vec<DeclId> = vec![];
+                    fn tg(ss: &[Stmt], out: &mut Vec<DeclId>) {
+                        for s in ss {
+                            match s {
+                                Stmt::Assign { lhs, .. } => out.push(lhs.decl),
+                                Stmt::AssignConcat { lhs, .. } => out.extend(lhs.iter().map(|l| l.decl)),
+                                Stmt::For { body, .. } => tg(body, out),
+                                Stmt::If { then, els, .. } => {
+                                    tg(then, out);
+                                    tg(els, out);
+                                }
+                                _ => {}
+                            }
+                        }
+                    }
+                    tg(reset, &mut targets);
+                    targets.sort();
+                    targets.dedup();
+                    targets.retain(|d| ms.decls[*d].kind != DeclKind::LoopVar);
+                    let simple = targets.iter().all(|d| ms.decls[*d].array.is_none() && matches!(ms.decls[*d].syntax, TySyntax::Logic | TySyntax::Bit | TySyntax::Fixed | TySyntax::LogicOf(_)));
+                    if simple && !targets.is_empty() {
+                        *reset = targets
+                            .iter()
+                            .map(|d| {
+                                let ty = ms.decls[*d].ty;
+                                // a value that depends on the variable, not all zero
+                                let v = (num_bigint::BigUint::from(0x5a5a_5a5a_5a5a_5a5au64) >> (*d % 7)) & eval::mask(ty.w);
+                                Stmt::Assign {
+                                    lhs: Ref::whole(*d),
+                                    op: AssignOp::Set,
+                                    rhs: Expr::lit(ty, v),
+                                }
+                            })
+                            .collect();
+                        done.insert("reset-branch-not-plain-constants");
+                    }
+                }
+            }
+        }
+        // K4
+        let used = used_consts(ms);
+        for (di, d) in m.decls.iter_mut().enumerate() {
+            if d.kind != DeclKind::Const || !used.contains(&di) {
+                continue;
+            }
+            if let (Some(e), Some(v)) = (&d.init, &d.value) {
+                let full = eval::eval_const(&snapshot, ms, e);
+                let conv = eval::eval_const_assign(&snapshot, ms, e, d.ty.w);
+                if (full.x || conv.x || full.v != conv.v) && !matches!(d.syntax, TySyntax::Struct(_) | TySyntax::Enum(_)) {
+                    d.init = Some(Expr::lit(d.ty, v.clone()));
+                    done.insert("const-wider-than-declared-type");
+                }
+            }
+        }
+    }
+    done.into_iter().collect()
+}
